@@ -3,6 +3,7 @@
 use serde_json::{json, Value as J};
 use std::io::{BufRead, Write};
 
+pub mod authd;
 pub mod cfgload;
 pub mod codec;
 pub mod frag;
@@ -72,6 +73,7 @@ pub fn main() {
         "frag" => frag::main(rest),
         "frag-grid" => frag::grid(rest),
         "frag-trace" => frag::trace(rest),
+        "auth" => authd::main(rest),
         "codec" => codec::main(rest),
         "config" => cfgload::main(rest),
         "route" => route::main(rest),
